@@ -66,3 +66,18 @@ async def raising_app(scope, receive, send):
     if scope["type"] == "lifespan":
         raise RuntimeError("lifespan not supported")
     await app(scope, receive, send)
+
+
+async def failing_once_app(scope, receive, send):
+    """Start-up succeeds in the first worker that gets hold of the lock file named by HV_PROC_LOCK and fails in every other one: an
+    asymmetric failure (a port, a lock, a connection limit one process got and the next did not)."""
+    if scope["type"] == "lifespan":
+        try:
+            os.close(os.open(os.environ["HV_PROC_LOCK"], os.O_CREAT | os.O_EXCL | os.O_WRONLY, 0o600))
+        except FileExistsError:
+            await receive()
+            _log("lifespan", "startup-failing")
+            await send({"type": "lifespan.startup.failed", "message": "lock held by another worker"})
+            await receive()
+            return
+    await app(scope, receive, send)
